@@ -522,4 +522,28 @@ package serf
 //@       forall(func(j int) bool { return 0 <= j && j <= rangeindex ==> !evEquals(seen.Events[j], eventMsg.Name, eventMsg.Payload) })
 //@ end
 
+//@ func (s *Serf) UserEvent(name string, payload []byte, coalesce bool) (err error)
+//@   requires wf: wfEvents(s)
+//@   oldlet q0 := logN("queued")
+//@   oldlet evN := sentN(s.config.EventCh)
+//@   oldlet mint0 := logN("mint.LamportClock.counter")
+//@   oldlet c0 := s.eventClock.Time()
+//@   # C33: accepted only within both limits, before and after encoding; exactly one broadcast of that size is queued
+//@   ensures accepted_within_limits [C33]: err == nil ==> len(name)+len(payload) <= s.config.UserEventSizeLimit && len(name)+len(payload) <= UserEventSizeLimit &&
+//@       logN("queued") == q0+1 && logAt[*memberlist.TransmitLimitedQueue]("queued", q0) == s.eventBroadcasts &&
+//@       logAt[int]("queuedlen", q0) <= s.config.UserEventSizeLimit && logAt[int]("queuedlen", q0) <= UserEventSizeLimit
+//@   # C33: a rejected event is neither delivered locally nor broadcast
+//@   ensures rejected_no_effect [C33]: err != nil ==> logN("queued") == q0 && sentN(s.config.EventCh) == evN
+//@   ensures oversize_rejected [C33]: len(name)+len(payload) > s.config.UserEventSizeLimit || len(name)+len(payload) > UserEventSizeLimit ==> err != nil
+//@   # C06: the clock is advanced exactly once per accepted event, and is afterwards past its value at call begin
+//@   ensures clock_advanced_once [C06]: err == nil ==> logN("mint.LamportClock.counter") == mint0+1 && s.eventClock.Time() > c0
+//@   # C06 (uniqueness under concurrency): the Lamport time stamped on the event must be the ticket of this call's own
+//@   # atomic increment (value-1), not a value merely read before it
+//@   let ev, evok := sentAt(s.config.EventCh, evN).(UserEvent)
+//@   # C06 (causally later): the stamped time is not below the clock at call begin
+//@   ensures origin_ltime_not_before_entry [C06]: err == nil && s.config.EventCh != nil && sentN(s.config.EventCh) == evN+1 && evok ==> ev.LTime >= c0
+//@   ensures origin_ltime_is_own_ticket [C06]: err == nil && s.config.EventCh != nil && sentN(s.config.EventCh) == evN+1 && evok ==>
+//@       uint64(ev.LTime)+1 == logAt[uint64]("mint.LamportClock.counter", mint0)
+//@ end
+
 // END-OF-CONTRACTS
